@@ -32,6 +32,13 @@ pub fn digest(s: &str) -> String {
 
 /// what MessageFrame::new answers for `bytes`, as a JSON object
 pub fn observe_new(bytes: &[u8], with_msg: bool) -> J {
+    crate::drv_decode::enter(bytes);
+    let o = observe_new_inner(bytes, with_msg);
+    crate::drv_decode::leave();
+    o
+}
+
+fn observe_new_inner(bytes: &[u8], with_msg: bool) -> J {
     let r = guarded(|| match MessageFrame::new(bytes) {
         Ok(m) => {
             let mut o = json!({
@@ -69,6 +76,13 @@ pub fn scan_obs_pub(buf: &[u8]) -> J {
 }
 
 fn scan_obs(buf: &[u8]) -> J {
+    crate::drv_decode::enter(buf);
+    let o = scan_obs_inner(buf);
+    crate::drv_decode::leave();
+    o
+}
+
+fn scan_obs_inner(buf: &[u8]) -> J {
     match guarded(|| {
         let (consumed, mf) = next_msg_frame(buf);
         match mf {
@@ -308,6 +322,13 @@ pub fn rec_scan(a: &Args, out: &mut Out) {
 
 /// one MsgFrameIter run on `buf` (+ three extra next() calls), as an Iter event
 pub fn iter_obs(buf: &[u8]) -> J {
+    crate::drv_decode::enter(buf);
+    let o = iter_obs_inner(buf);
+    crate::drv_decode::leave();
+    o
+}
+
+fn iter_obs_inner(buf: &[u8]) -> J {
     let it = guarded(|| {
         let mut it = MsgFrameIter::new(buf);
         let mut frames = vec![];
